@@ -93,8 +93,8 @@ m("C09", "format-cardinality-strict-greater", "odml/util.py",
 m("C09", "validation-max-off-by-one", "odml/validation.py",
   "        elif val_max and val_len > val_max:\n", "        elif val_max and val_len >= val_max:\n")
 m("C09", "dict-reader-drops-prop-cardinality", "odml/tools/dict_parser.py",
-  "                    if attr.endswith(\"_cardinality\"):\n                        content = parse_cardinality(content)\n\n                    # Make sure to always use the correct odml format attribute name\n                    sec_attrs",
-  "                    if attr == \"sec_cardinality\":\n                        content = parse_cardinality(content)\n                    elif attr.endswith(\"_cardinality\"):\n                        content = None\n\n                    # Make sure to always use the correct odml format attribute name\n                    sec_attrs")
+  "                    if attr.endswith(\"_cardinality\"):\n                        content = parse_cardinality(content)\n\n                    usable, content = self._text_content(attr, content, \"Section\")",
+  "                    if attr == \"sec_cardinality\":\n                        content = parse_cardinality(content)\n                    elif attr.endswith(\"_cardinality\"):\n                        content = None\n\n                    usable, content = self._text_content(attr, content, \"Section\")")
 m("C09", "xml-cardinality-min-only-lost", "odml/tools/xmlparser.py",
   "        if min_int and max_val == \"None\":\n            return int(min_val), None\n", "")
 m("C09", "cardinality-enforced-on-append", "odml/property.py",
